@@ -189,6 +189,25 @@ def run_case(case):
     if f < 0:
         signs[m0 * per:(m0 + 1) * per] = -1.0
     rewrite_all(scaled, "column %d multiplied by %g" % (m0, f), "scale_column", signs=signs)
+    # (d') every column of the shell scaled by the same factor (the whole coefficient matrix becomes tiny or huge)
+    def scaled_all():
+        return [dict(s0, k=[[v * f for v in r] for r in s0["k"]])] + shells[1:]
+
+    signs_all = np.ones(ntot)
+    if f < 0:
+        signs_all[: bases.nfunc(s0)] = -1.0
+    rewrite_all(scaled_all, "every column of shell 0 multiplied by %g" % f, "scale_all_columns", signs=signs_all)
+    # (d'') a shell with one weakly contributing primitive (coefficients 1e-3 of the others), written with all its
+    # coefficients multiplied by 1e-6 / 1e+6: same functions (every column is renormalised)
+    weak = [dict(s0, k=[[v * (1e-3 if i == kk else 1.0) for v in r] for i, r in enumerate(s0["k"])])] + shells[1:]
+    for fac in (1e-6, 1e6):
+        tiny = [dict(weak[0], k=[[v * fac for v in r] for r in weak[0]["k"]])] + shells[1:]
+        for name, fn, nidx in F:
+            want = cm.call(fn, cm.build(weak))
+            if isinstance(want, cm.Raised):
+                viols.append(cm.unexpected(want, name))
+                continue
+            cmp(name, nidx, cm.call(fn, cm.build(tiny)), want, "a shell with a weak primitive, all coefficients multiplied by %g" % fac, "scale_weak_shell")
     # (e) un-normalised kernel blocks linear in the coefficients
     from gbasis.contractions import GeneralizedContractionShell as G
     from gbasis.integrals.electron_repulsion import ElectronRepulsionIntegral
